@@ -423,4 +423,526 @@ Proof.
   rewrite R, Es, app_length. specialize (Np eq_refl). destruct pre; [congruence|cbn [length]; lia].
 Qed.
 
+
+(* ---- environments ---- *)
+
+Lemma env_get_set_same d db db0 e : env_get d e = Some db0 -> env_get d (env_set d db e) = Some db.
+Proof.
+  induction e as [|[d' x] r IH]; cbn [env_get env_set]; [discriminate|].
+  destruct (beqb d d') eqn:E; cbn [env_get]; rewrite E; [reflexivity|exact IH].
+Qed.
+
+Lemma env_get_set_other d d' db e : d' <> d -> env_get d' (env_set d db e) = env_get d' e.
+Proof.
+  intros N. induction e as [|[d2 x] r IH]; [reflexivity|]. cbn [env_set].
+  destruct (beqb d d2) eqn:E; cbn [env_get].
+  - apply beqb_eq in E. subst d2. assert (beqb d' d = false) as -> by (apply beqb_false; exact N). reflexivity.
+  - destruct (beqb d' d2); [reflexivity|exact IH].
+Qed.
+
+Lemma env_set_id d db e : env_get d e = Some db -> env_set d db e = e.
+Proof.
+  induction e as [|[d' x] r IH]; cbn [env_get env_set]; [reflexivity|].
+  destruct (beqb d d'); [intros H; inversion H; reflexivity|intros H; f_equal; apply IH, H].
+Qed.
+
+Lemma env_set_names d db e : map fst (env_set d db e) = map fst e.
+Proof.
+  induction e as [|[d' x] r IH]; [reflexivity|]. cbn [env_set].
+  destruct (beqb d d'); cbn [map fst]; [reflexivity|f_equal; exact IH].
+Qed.
+
+Lemma env_wf_get d db e : env_wf e -> env_get d e = Some db -> sorted db.
+Proof.
+  induction e as [|[d' x] r IH]; intros W; cbn [env_get]; [discriminate|].
+  inversion W; subst. destruct (beqb d d'); [intros H; inversion H; subst; assumption|apply IH; assumption].
+Qed.
+
+Lemma env_wf_set d db e : env_wf e -> sorted db -> env_wf (env_set d db e).
+Proof.
+  intros W Sd. induction e as [|[d' x] r IH]; [constructor|]. inversion W; subst. cbn [env_set].
+  destruct (beqb d d'); constructor; cbn [snd] in *; auto. apply IH. assumption.
+Qed.
+
+Lemma elookup_set_same d k db db0 e : env_get d e = Some db0 -> elookup d k (env_set d db e) = lookup k db.
+Proof. intros H. unfold elookup. rewrite (env_get_set_same _ _ _ _ H). reflexivity. Qed.
+
+Lemma elookup_set_other d d' k db e : d' <> d -> elookup d' k (env_set d db e) = elookup d' k e.
+Proof. intros N. unfold elookup. rewrite env_get_set_other by exact N. reflexivity. Qed.
+
+(* ---- application operations ---- *)
+
+Lemma apply_op_wf e o : env_wf e -> env_wf (apply_op cmp e o).
+Proof.
+  intros W. destruct o as [d k v|d k]; cbn [apply_op]; destruct (env_get d e) as [db|] eqn:G; try exact W;
+    apply env_wf_set; try exact W; [apply sorted_put|apply sorted_del]; eapply env_wf_get; eassumption.
+Qed.
+
+Lemma apply_ops_wf ops e : env_wf e -> env_wf (apply_ops cmp ops e).
+Proof.
+  unfold apply_ops. revert e. induction ops as [|o ops IH]; intros e W; [exact W|].
+  cbn [fold_left]. apply IH, apply_op_wf, W.
+Qed.
+
+Lemma apply_op_names e o : map fst (apply_op cmp e o) = map fst e.
+Proof.
+  destruct o as [d k v|d k]; cbn [apply_op]; destruct (env_get d e); try reflexivity; apply env_set_names.
+Qed.
+
+Lemma apply_op_untouched d k e o : op_touches d k o = false -> elookup d k (apply_op cmp e o) = elookup d k e.
+Proof.
+  intros T. destruct o as [d' k' v|d' k']; cbn [apply_op op_touches] in *;
+    destruct (env_get d' e) as [db|] eqn:G; try reflexivity;
+    (destruct (beqb d d') eqn:Ed;
+     [apply beqb_eq in Ed; subst d'; rewrite (elookup_set_same _ _ _ _ _ G); unfold elookup; rewrite G;
+      cbn [andb] in T; apply beqb_false in T
+     |apply beqb_false in Ed; apply elookup_set_other; exact Ed]).
+  - apply lookup_put_other, T.
+  - apply lookup_del_other, T.
+Qed.
+
+Definition ops_untouched (d k : bytes) (ops : list op) : bool := forallb (fun o => negb (op_touches d k o)) ops.
+(* the application writes neither puts nor deletes key k of DBI d during the pass *)
+Definition untouched (d k : bytes) (sc : sched) : bool := forallb (fun p => ops_untouched d k (snd p)) sc.
+
+Lemma apply_ops_untouched d k ops e : ops_untouched d k ops = true ->
+  elookup d k (apply_ops cmp ops e) = elookup d k e.
+Proof.
+  unfold apply_ops, ops_untouched. revert e. induction ops as [|o ops IH]; intros e U; [reflexivity|].
+  cbn [forallb] in U. apply andb_true_iff in U. destruct U as [U1 U2]. cbn [fold_left].
+  rewrite IH by exact U2. apply apply_op_untouched. destruct (op_touches d k o); [discriminate|reflexivity].
+Qed.
+
+Definition ops_avoid (d : bytes) (ops : list op) : bool := forallb (fun o => negb (beqb d (op_dbi o))) ops.
+(* the application does not write DBI d at all during the pass *)
+Definition avoids (d : bytes) (sc : sched) : bool := forallb (fun p => ops_avoid d (snd p)) sc.
+
+Lemma apply_ops_avoid d ops e : ops_avoid d ops = true -> env_get d (apply_ops cmp ops e) = env_get d e.
+Proof.
+  unfold apply_ops, ops_avoid. revert e. induction ops as [|o ops IH]; intros e U; [reflexivity|].
+  cbn [forallb] in U. apply andb_true_iff in U. destruct U as [U1 U2]. cbn [fold_left].
+  rewrite IH by exact U2. destruct (beqb d (op_dbi o)) eqn:E; [discriminate|]. apply beqb_false in E.
+  destruct o as [d' k v|d' k]; cbn [apply_op op_dbi] in *; destruct (env_get d' e); try reflexivity;
+    apply env_get_set_other; exact E.
+Qed.
+
+(* ---- one sweeper transaction on the environment ---- *)
+
+(* what a committed sweeper transaction may do *)
+Definition step_ok (cutoff : N) (s : step) : Prop :=
+  map fst (st_after s) = map fst (st_before s) /\
+  (forall d', d' <> st_dbi s -> env_get d' (st_after s) = env_get d' (st_before s)) /\
+  (forall d k, elookup d k (st_after s) = elookup d k (st_before s) \/
+     (d = st_dbi s /\ elookup d k (st_after s) = None /\
+      exists v, elookup d k (st_before s) = Some v /\ is_expired cutoff v = true)).
+
+Lemma eslice_inv cutoff d last lim e e' last' lr :
+  eslice cmp cutoff d last lim e = Ok (e', last', lr) ->
+  exists db db', env_get d e = Some db /\ slice cmp cutoff last lim db = Ok (db', last', lr) /\
+                 e' = env_set d db' e.
+Proof.
+  unfold eslice. destruct (env_get d e) as [db|]; [|discriminate].
+  destruct (slice cmp cutoff last lim db) as [[[db' l'] r']| | |] eqn:E; try discriminate.
+  intros H. inversion H; subst. exists db, db'. auto.
+Qed.
+
+Theorem eslice_only cutoff d last lim e e' last' lr :
+  env_wf e -> eslice cmp cutoff d last lim e = Ok (e', last', lr) ->
+  env_wf e' /\ step_ok cutoff (mkStep d e e').
+Proof.
+  intros W H. destruct (eslice_inv _ _ _ _ _ _ _ _ H) as (db & db' & G & Sl & ->).
+  pose proof (env_wf_get _ _ _ W G) as Sd.
+  destruct (slice_only _ _ _ _ _ _ _ Sd Sl) as [Sd' L].
+  split; [apply env_wf_set; assumption|]. unfold step_ok. cbn [st_dbi st_before st_after].
+  split; [apply env_set_names|]. split; [intros d' N; apply env_get_set_other, N|].
+  intros d2 k. destruct (beqb d2 d) eqn:E.
+  - apply beqb_eq in E. subst d2. rewrite (elookup_set_same _ _ _ _ _ G). unfold elookup. rewrite G.
+    destruct (L k) as [E1|(E1 & v & E2 & X)]; [left; exact E1|right].
+    split; [reflexivity|]. split; [exact E1|]. exists v. split; [exact E2|exact X].
+  - apply beqb_false in E. left. apply elookup_set_other, E.
+Qed.
+
+Definition out_env (o : outcome) : env :=
+  match o with Done e _ => e | Failed _ e => e | Fuel e => e end.
+
+(* ---- generic inductions over the pass ---- *)
+
+Lemma dbi_pass_trace_gen cutoff d (G : step -> Prop) :
+  (forall e last lim e' last' lr, env_wf e -> eslice cmp cutoff d last lim e = Ok (e', last', lr) -> G (mkStep d e e')) ->
+  forall sc last lr e, env_wf e ->
+    Forall G (snd (dbi_pass cmp cutoff d sc last lr e)) /\ env_wf (out_env (fst (dbi_pass cmp cutoff d sc last lr e))).
+Proof.
+  intros HG. induction sc as [|[lim ops] sc IH]; intros last lr e W; cbn [dbi_pass].
+  - split; [constructor|exact W].
+  - destruct (eslice cmp cutoff d last lim e) as [[[e1 last1] lr1]|x| |] eqn:E.
+    + destruct (eslice_only _ _ _ _ _ _ _ _ W E) as [W1 _]. pose proof (HG _ _ _ _ _ _ W E) as G1.
+      pose proof (apply_ops_wf ops _ W1) as W2. destruct lr1.
+      * specialize (IH last1 true _ W2). destruct (dbi_pass cmp cutoff d sc last1 true (apply_ops cmp ops e1)) as [o tr].
+        cbn [fst snd] in *. destruct IH as [F Wo]. split; [constructor; assumption|exact Wo].
+      * cbn [fst snd out_env]. split; [repeat constructor; exact G1|exact W2].
+    + destruct lr; [apply IH, apply_ops_wf, W|]. cbn [fst snd out_env]. split; [constructor|exact W].
+    + cbn [fst snd out_env]. split; [constructor|exact W].
+    + cbn [fst snd out_env]. split; [constructor|exact W].
+Qed.
+
+Lemma dbi_pass_rest cutoff d : forall sc last lr e e' rest tr,
+  dbi_pass cmp cutoff d sc last lr e = (Done e' rest, tr) -> exists pre, sc = pre ++ rest.
+Proof.
+  induction sc as [|[lim ops] sc IH]; intros last lr e e' rest tr H; cbn [dbi_pass] in H; [discriminate|].
+  destruct (eslice cmp cutoff d last lim e) as [[[e1 last1] lr1]|x| |]; try discriminate.
+  - destruct lr1.
+    + destruct (dbi_pass cmp cutoff d sc last1 true (apply_ops cmp ops e1)) as [o tr1] eqn:E. inversion H; subst.
+      destruct (IH _ _ _ _ _ _ E) as [pre ->]. exists ((lim, ops) :: pre). reflexivity.
+    + inversion H; subst. exists [(lim, ops)]. reflexivity.
+  - destruct lr; [|discriminate]. destruct (IH _ _ _ _ _ _ H) as [pre ->]. exists ((lim, ops) :: pre). reflexivity.
+Qed.
+
+(* a state predicate kept by every sweeper transaction on d and by every application step of the
+   schedule is kept by the pass *)
+Lemma dbi_pass_inv_gen cutoff d (J : env -> Prop) :
+  (forall e last lim e' last' lr, env_wf e -> J e -> eslice cmp cutoff d last lim e = Ok (e', last', lr) -> J e') ->
+  forall sc, (forall lim ops, In (lim, ops) sc -> forall e, env_wf e -> J e -> J (apply_ops cmp ops e)) ->
+  forall last lr e, env_wf e -> J e -> J (out_env (fst (dbi_pass cmp cutoff d sc last lr e))).
+Proof.
+  intros HS. induction sc as [|[lim ops] sc IH]; intros HA last lr e W Je; cbn [dbi_pass]; [exact Je|].
+  assert (HA' : forall lim ops, In (lim, ops) sc -> forall e, env_wf e -> J e -> J (apply_ops cmp ops e))
+    by (intros l o I; apply (HA l o); right; exact I).
+  assert (HA0 : forall e, env_wf e -> J e -> J (apply_ops cmp ops e)) by (apply (HA lim ops); left; reflexivity).
+  destruct (eslice cmp cutoff d last lim e) as [[[e1 last1] lr1]|x| |] eqn:E; try exact Je.
+  - destruct (eslice_only _ _ _ _ _ _ _ _ W E) as [W1 _]. pose proof (HS _ _ _ _ _ _ W Je E) as J1.
+    destruct lr1.
+    + specialize (IH HA' last1 true _ (apply_ops_wf ops _ W1) (HA0 _ W1 J1)).
+      destruct (dbi_pass cmp cutoff d sc last1 true (apply_ops cmp ops e1)) as [o tr]. exact IH.
+    + cbn [fst out_env]. apply HA0; assumption.
+  - destruct lr; [|exact Je]. apply IH; [exact HA'|apply apply_ops_wf, W|apply HA0; assumption].
+Qed.
+
+Lemma sweep_dbis_trace_gen cutoff native (G : step -> Prop) :
+  (forall d e last lim e' last' lr, selected native d = true -> env_wf e ->
+     eslice cmp cutoff d last lim e = Ok (e', last', lr) -> G (mkStep d e e')) ->
+  forall names sc e, env_wf e ->
+    Forall G (snd (sweep_dbis cmp cutoff native names sc e)) /\
+    env_wf (out_env (fst (sweep_dbis cmp cutoff native names sc e))).
+Proof.
+  intros HG. induction names as [|d names IH]; intros sc e W; cbn [sweep_dbis].
+  - split; [constructor|exact W].
+  - destruct (selected native d) eqn:Sel; [|apply IH, W].
+    destruct (dbi_pass_trace_gen cutoff d G (fun e last lim e' last' lr => HG d e last lim e' last' lr Sel) sc None false e W)
+      as [F Wo].
+    destruct (dbi_pass cmp cutoff d sc None false e) as [[e1 sc1|x e1|e1] tr]; cbn [fst snd out_env] in *.
+    + specialize (IH sc1 e1 Wo). destruct (sweep_dbis cmp cutoff native names sc1 e1) as [o tr'].
+      cbn [fst snd] in *. destruct IH as [F' Wo']. split; [apply Forall_app; split; assumption|exact Wo'].
+    + split; assumption.
+    + split; assumption.
+Qed.
+
+Lemma in_app_sched {A} (x : A) pre rest : In x rest -> In x (pre ++ rest).
+Proof. intros I. apply in_or_app. right. exact I. Qed.
+
+Lemma sweep_dbis_inv_gen cutoff native (J : env -> Prop) :
+  (forall d e last lim e' last' lr, selected native d = true -> env_wf e -> J e ->
+     eslice cmp cutoff d last lim e = Ok (e', last', lr) -> J e') ->
+  forall names sc, (forall lim ops, In (lim, ops) sc -> forall e, env_wf e -> J e -> J (apply_ops cmp ops e)) ->
+  forall e, env_wf e -> J e -> J (out_env (fst (sweep_dbis cmp cutoff native names sc e))).
+Proof.
+  intros HS. induction names as [|d names IH]; intros sc HA e W Je; cbn [sweep_dbis]; [exact Je|].
+  destruct (selected native d) eqn:Sel; [|apply IH; assumption].
+  pose proof (dbi_pass_inv_gen cutoff d J (fun e last lim e' last' lr => HS d e last lim e' last' lr Sel) sc HA None false e W Je) as J1.
+  destruct (dbi_pass_trace_gen cutoff d (fun _ => True) (fun _ _ _ _ _ _ _ _ => I) sc None false e W) as [_ W1].
+  destruct (dbi_pass cmp cutoff d sc None false e) as [[e1 sc1|x e1|e1] tr] eqn:E; cbn [fst snd out_env] in *;
+    try exact J1.
+  destruct (dbi_pass_rest _ _ _ _ _ _ _ _ _ E) as [pre ->].
+  assert (HA1 : forall lim ops, In (lim, ops) sc1 -> forall e, env_wf e -> J e -> J (apply_ops cmp ops e))
+    by (intros l o Il; apply (HA l o), in_app_sched, Il).
+  specialize (IH sc1 HA1 e1 W1 J1). destruct (sweep_dbis cmp cutoff native names sc1 e1) as [o tr']. exact IH.
+Qed.
+
+
+(* ==== C13_only_expired ==== *)
+
+(* every transaction the sweeper commits is on a DBI selected by the mode rule, removes only
+   entries that are expired markers at that moment, alters no other entry of any DBI and creates
+   or drops no DBI — for every slicing and every interleaved application behaviour, whatever the
+   outcome of the pass *)
+Theorem sweep_only_expired cutoff native names sc e : env_wf e ->
+  Forall (fun s => selected native (st_dbi s) = true /\ step_ok cutoff s)
+         (snd (sweep_dbis cmp cutoff native names sc e)).
+Proof.
+  intros W. apply (sweep_dbis_trace_gen cutoff native _); [|exact W].
+  intros d e0 last lim e' last' lr Sel W0 E. split; [exact Sel|].
+  exact (proj2 (eslice_only _ _ _ _ _ _ _ _ W0 E)).
+Qed.
+
+Definition quiet (sc : sched) : bool := forallb (fun p => match snd p with [] => true | _ => false end) sc.
+
+Lemma quiet_ops sc lim ops : quiet sc = true -> In (lim, ops) sc -> ops = [].
+Proof.
+  unfold quiet. rewrite forallb_forall. intros Q I. specialize (Q _ I). cbn [snd] in Q.
+  destruct ops; [reflexivity|discriminate].
+Qed.
+
+(* net effect without a concurrent writer: the final content is the initial content minus some
+   markers that were expired, in selected DBIs only *)
+Theorem sweep_only_expired_net cutoff native names sc e : env_wf e -> quiet sc = true ->
+  let e' := out_env (fst (sweep_dbis cmp cutoff native names sc e)) in
+  map fst e' = map fst e /\
+  forall d k, elookup d k e' = elookup d k e \/
+    (selected native d = true /\ elookup d k e' = None /\
+     exists v, elookup d k e = Some v /\ is_expired cutoff v = true).
+Proof.
+  intros W Q.
+  apply (sweep_dbis_inv_gen cutoff native (fun e' => map fst e' = map fst e /\
+    forall d k, elookup d k e' = elookup d k e \/
+      (selected native d = true /\ elookup d k e' = None /\
+       exists v, elookup d k e = Some v /\ is_expired cutoff v = true))).
+  - intros d e0 last lim e1 last1 lr1 Sel W0 [N0 J0] E.
+    destruct (eslice_only _ _ _ _ _ _ _ _ W0 E) as [_ (N1 & _ & L1)]. cbn [st_dbi st_before st_after] in *.
+    split; [congruence|]. intros d2 k.
+    destruct (L1 d2 k) as [E1|(-> & E1 & v & E2 & X)].
+    + rewrite E1. apply J0.
+    + destruct (J0 d k) as [E0|(S0 & E0 & _)]; [|rewrite E0 in E2; discriminate].
+      right. split; [exact Sel|]. split; [exact E1|]. exists v. split; [congruence|exact X].
+  - intros lim ops I e0 _ J0. rewrite (quiet_ops _ _ _ Q I). exact J0.
+  - exact W.
+  - split; [reflexivity|]. intros; left; reflexivity.
+Qed.
+
+(* ==== C13_complete ==== *)
+
+Definition inv_k (d k v : bytes) (last : option (bytes * bytes)) (e : env) : Prop :=
+  elookup d k e = None \/ (elookup d k e = Some v /\ before last k).
+
+Lemma untouched_cons d k lim ops sc : untouched d k ((lim, ops) :: sc) = true ->
+  ops_untouched d k ops = true /\ untouched d k sc = true.
+Proof. unfold untouched. cbn [forallb snd]. intros H. apply andb_true_iff in H. exact H. Qed.
+
+Lemma dbi_pass_complete cutoff d k v : is_expired cutoff v = true ->
+  forall sc last lr e e' rest tr, env_wf e -> untouched d k sc = true -> inv_k d k v last e ->
+  dbi_pass cmp cutoff d sc last lr e = (Done e' rest, tr) -> elookup d k e' = None.
+Proof.
+  intros X. induction sc as [|[lim ops] sc IH]; intros last lr e e' rest tr W U Inv H; cbn [dbi_pass] in H;
+    [discriminate|].
+  apply untouched_cons in U. destruct U as [U0 U].
+  destruct (eslice cmp cutoff d last lim e) as [[[e1 last1] lr1]|x| |] eqn:E; try discriminate.
+  - destruct (eslice_only _ _ _ _ _ _ _ _ W E) as [W1 _].
+    destruct (eslice_inv _ _ _ _ _ _ _ _ E) as (db & db1 & G & Sl & ->).
+    pose proof (env_wf_get _ _ _ W G) as Sd.
+    assert (Inv1 : lookup k db1 = None \/ (lr1 = true /\ lookup k db1 = Some v /\ before last1 k)).
+    { destruct Inv as [E0|[E0 B]]; unfold elookup in E0; rewrite G in E0.
+      - left. destruct (proj2 (slice_only _ _ _ _ _ _ _ Sd Sl) k) as [E1|[E1 _]]; congruence.
+      - eapply slice_reach; eassumption. }
+    assert (E2 : elookup d k (apply_ops cmp ops (env_set d db1 e)) = lookup k db1).
+    { rewrite apply_ops_untouched by exact U0. apply (elookup_set_same _ _ _ _ _ G). }
+    destruct lr1.
+    + destruct (dbi_pass cmp cutoff d sc last1 true (apply_ops cmp ops (env_set d db1 e))) as [o tr1] eqn:E3.
+      inversion H; subst o. eapply (IH last1 true _ _ _ _ (apply_ops_wf ops _ W1) U); [|exact E3].
+      unfold inv_k. rewrite E2. destruct Inv1 as [N|(_ & Sv & B)]; [left; exact N|right; split; assumption].
+    + inversion H; subst. rewrite E2. destruct Inv1 as [N|(F & _)]; [exact N|discriminate].
+  - destruct lr; [|discriminate].
+    eapply (IH last true _ _ _ _ (apply_ops_wf ops _ W) U); [|exact H].
+    unfold inv_k. rewrite apply_ops_untouched by exact U0. exact Inv.
+Qed.
+
+Lemma untouched_in d k sc lim ops : untouched d k sc = true -> In (lim, ops) sc -> ops_untouched d k ops = true.
+Proof. unfold untouched. rewrite forallb_forall. intros U I. exact (U _ I). Qed.
+
+Lemma untouched_app d k pre rest : untouched d k (pre ++ rest) = true -> untouched d k rest = true.
+Proof. unfold untouched. rewrite forallb_app. intros H. apply andb_true_iff in H. tauto. Qed.
+
+(* a predicate on the content of (d,k) that survives "unchanged or removed" survives the pass when
+   the application does not touch (d,k) *)
+Lemma sweep_dbis_keeps cutoff native d k (Qo : option bytes -> Prop) :
+  (forall x, Qo x -> Qo None) ->
+  forall names sc e, env_wf e -> untouched d k sc = true -> Qo (elookup d k e) ->
+  Qo (elookup d k (out_env (fst (sweep_dbis cmp cutoff native names sc e)))).
+Proof.
+  intros HQ names sc e W U Q0.
+  apply (sweep_dbis_inv_gen cutoff native (fun e' => Qo (elookup d k e'))); try assumption.
+  - intros d1 e0 last lim e1 last1 lr1 _ W0 J0 E.
+    destruct (eslice_only _ _ _ _ _ _ _ _ W0 E) as [_ (_ & _ & L1)]. cbn [st_dbi st_before st_after] in L1.
+    destruct (L1 d k) as [E1|(_ & E1 & _)]; rewrite E1; [exact J0|exact (HQ _ J0)].
+  - intros lim ops I e0 _ J0. rewrite apply_ops_untouched; [exact J0|]. eapply untouched_in; eassumption.
+Qed.
+
+Lemma dbi_pass_keeps cutoff d1 d k (Qo : option bytes -> Prop) :
+  (forall x, Qo x -> Qo None) ->
+  forall sc last lr e, env_wf e -> untouched d k sc = true -> Qo (elookup d k e) ->
+  Qo (elookup d k (out_env (fst (dbi_pass cmp cutoff d1 sc last lr e)))).
+Proof.
+  intros HQ sc last lr e W U Q0.
+  apply (dbi_pass_inv_gen cutoff d1 (fun e' => Qo (elookup d k e'))); try assumption.
+  - intros e0 last0 lim e1 last1 lr1 W0 J0 E.
+    destruct (eslice_only _ _ _ _ _ _ _ _ W0 E) as [_ (_ & _ & L1)]. cbn [st_dbi st_before st_after] in L1.
+    destruct (L1 d k) as [E1|(_ & E1 & _)]; rewrite E1; [exact J0|exact (HQ _ J0)].
+  - intros lim ops I e0 _ J0. rewrite apply_ops_untouched; [exact J0|]. eapply untouched_in; eassumption.
+Qed.
+
+(* an expired marker that the application leaves alone is gone when the pass ends normally:
+   every slicing, every concurrent application behaviour on all other keys (including the resume
+   keys of every slice) *)
+Theorem sweep_complete cutoff native d k v : is_expired cutoff v = true -> selected native d = true ->
+  forall names sc e e' rest, env_wf e -> untouched d k sc = true -> In d names ->
+  (elookup d k e = Some v \/ elookup d k e = None) ->
+  fst (sweep_dbis cmp cutoff native names sc e) = Done e' rest ->
+  elookup d k e' = None.
+Proof.
+  intros X Sel. induction names as [|d1 names IH]; intros sc e e' rest W U I P H; [destruct I|].
+  cbn [sweep_dbis] in H.
+  destruct (beqb d d1) eqn:Ed.
+  - apply beqb_eq in Ed. subst d1. rewrite Sel in H.
+    pose proof (dbi_pass_trace_gen cutoff d (fun _ => True) (fun _ _ _ _ _ _ _ _ => Logic.I) sc None false e W) as [_ W1].
+    destruct (dbi_pass cmp cutoff d sc None false e) as [[e1 sc1|x e1|e1] tr] eqn:E; cbn [fst] in H; try discriminate.
+    cbn [fst out_env] in W1.
+    assert (N1 : elookup d k e1 = None).
+    { eapply (dbi_pass_complete cutoff d k v X sc None false e); try eassumption.
+      unfold inv_k, before. destruct P as [P|P]; [right; split; [exact P|exact Logic.I]|left; exact P]. }
+    destruct (dbi_pass_rest _ _ _ _ _ _ _ _ _ E) as [pre ->]. apply untouched_app in U.
+    pose proof (sweep_dbis_keeps cutoff native d k (fun x => x = None) (fun _ _ => eq_refl) names sc1 e1 W1 U N1) as K.
+    destruct (sweep_dbis cmp cutoff native names sc1 e1) as [o tr']. cbn [fst] in *. subst o. exact K.
+  - assert (I' : In d names).
+    { destruct I as [I|I]; [subst d1; rewrite beqb_refl in Ed; discriminate|exact I]. }
+    destruct (selected native d1) eqn:Sel1; [|eapply IH; eassumption].
+    pose proof (dbi_pass_trace_gen cutoff d1 (fun _ => True) (fun _ _ _ _ _ _ _ _ => Logic.I) sc None false e W) as [_ W1].
+    pose proof (dbi_pass_keeps cutoff d1 d k (fun x => x = Some v \/ x = None) (fun _ _ => or_intror eq_refl)
+                  sc None false e W U P) as P1.
+    destruct (dbi_pass cmp cutoff d1 sc None false e) as [[e1 sc1|x e1|e1] tr] eqn:E; cbn [fst] in H; try discriminate.
+    cbn [fst out_env] in W1, P1.
+    destruct (dbi_pass_rest _ _ _ _ _ _ _ _ _ E) as [pre ->]. apply untouched_app in U.
+    specialize (IH sc1 e1 e' rest W1 U I' P1).
+    destruct (sweep_dbis cmp cutoff native names sc1 e1) as [o tr']. cbn [fst] in *. apply IH, H.
+Qed.
+
+
+(* ==== C13_shadow_scope ==== *)
+
+(* non-native mode: no sweeper transaction touches a DBI without the "_sync" prefix *)
+Theorem sweep_shadow_scope cutoff names sc e d : env_wf e -> has_prefix SyncDBIPrefix d = false ->
+  Forall (fun s => env_get d (st_after s) = env_get d (st_before s))
+         (snd (sweep_dbis cmp cutoff false names sc e)).
+Proof.
+  intros W Np. eapply Forall_impl; [|apply (sweep_only_expired cutoff false names sc e W)].
+  intros s [Sel (_ & Fr & _)]. apply Fr. intros ->. unfold selected in Sel. cbn [orb] in Sel. congruence.
+Qed.
+
+Lemma avoids_in d sc lim ops : avoids d sc = true -> In (lim, ops) sc -> ops_avoid d ops = true.
+Proof. unfold avoids. rewrite forallb_forall. intros U I. exact (U _ I). Qed.
+
+(* a DBI that is not selected and that the application does not write during the pass is
+   byte-for-byte the same afterwards, whatever the outcome *)
+Theorem sweep_frame cutoff native names sc e d : env_wf e -> selected native d = false -> avoids d sc = true ->
+  env_get d (out_env (fst (sweep_dbis cmp cutoff native names sc e))) = env_get d e.
+Proof.
+  intros W Ns Av.
+  apply (sweep_dbis_inv_gen cutoff native (fun e' => env_get d e' = env_get d e)); try assumption; try reflexivity.
+  - intros d1 e0 last lim e1 last1 lr1 Sel W0 J0 E.
+    destruct (eslice_only _ _ _ _ _ _ _ _ W0 E) as [_ (_ & Fr & _)]. cbn [st_dbi st_before st_after] in Fr.
+    rewrite Fr; [exact J0|]. intros ->. congruence.
+  - intros lim ops I e0 _ J0. rewrite apply_ops_avoid; [exact J0|]. eapply avoids_in; eassumption.
+Qed.
+
+(* ==== the guard: cutoff 0 ==== *)
+
+Lemma eslice_zero d last lim e e' last' lr : eslice cmp 0 d last lim e = Ok (e', last', lr) -> e' = e.
+Proof.
+  intros E. destruct (eslice_inv _ _ _ _ _ _ _ _ E) as (db & db1 & G & Sl & ->).
+  apply slice_zero_cutoff in Sl. subst db1. apply env_set_id, G.
+Qed.
+
+(* with cutoff 0 (what the clamp yields when the retention reaches before the UNIX epoch)
+   NOTHING is swept *)
+Theorem sweep_zero_cutoff native names sc e : env_wf e ->
+  Forall (fun s => st_after s = st_before s) (snd (sweep_dbis cmp 0 native names sc e)).
+Proof.
+  intros W. apply (sweep_dbis_trace_gen 0 native _); [|exact W].
+  intros d e0 last lim e' last' lr _ _ E. cbn [st_after st_before]. eapply eslice_zero, E.
+Qed.
+
+Theorem sweep_clamped_sweeps_nothing now R native sc e : env_wf e ->
+  (0 <= now)%Z -> (now < R)%Z -> (R <= max_int64)%Z ->
+  Forall (fun s => st_after s = st_before s) (snd (sweep cmp now R native sc e)).
+Proof.
+  intros W H0 H1 H2. unfold sweep. rewrite sweep_cutoff_clamped by assumption. apply sweep_zero_cutoff, W.
+Qed.
+
+(* ==== C13_terminates ==== *)
+
+Definition parseable (db : dbi) : bool := forallb (fun p => is_ok (parse (snd p))) db.
+(* every slice limit is >= 1 record (the scanner never stops before its first record) and the
+   application writes nothing *)
+Definition quiescent (sc : sched) : bool :=
+  forallb (fun p => Nat.leb 1 (fst p) && match snd p with [] => true | _ => false end) sc.
+
+Lemma classify_ok cutoff v : is_ok (parse v) = true -> exists c, classify cutoff v = Ok c.
+Proof.
+  unfold classify. destruct (parse v) as [[h a]| | |]; try discriminate. intros _.
+  destruct (negb (is_deleted (h_flags h))); [eauto|]. destruct (cutoff <=? h_ts h); eauto.
+Qed.
+
+Lemma scan_loop_ok cutoff : forall s lim count cur db,
+  (forall k v, In (k, v) s -> is_ok (parse v) = true) -> exists r, scan_loop cutoff lim count s cur db = Ok r.
+Proof.
+  induction s as [|[k1 v1] s IH]; intros lim count cur db A; cbn [scan_loop];
+    destruct (limit_hit lim count); eauto.
+  destruct (classify_ok cutoff v1 (A k1 v1 (or_introl eq_refl))) as [c ->].
+  assert (A' : forall k v, In (k, v) s -> is_ok (parse v) = true) by (intros k v I; apply (A k v); right; exact I).
+  destruct c; apply IH; exact A'.
+Qed.
+
+Lemma parseable_in db k v : parseable db = true -> In (k, v) db -> is_ok (parse v) = true.
+Proof. unfold parseable. rewrite forallb_forall. intros P I. exact (P _ I). Qed.
+
+Lemma slice_ok cutoff last lim db : parseable db = true -> exists r, slice cmp cutoff last lim db = Ok r.
+Proof.
+  intros P. unfold slice. apply scan_loop_ok. intros k v I. eapply parseable_in; [exact P|].
+  apply (resume_incl last db), I.
+Qed.
+
+Lemma slice_parseable cutoff last lim db db' last' lr : sorted db -> parseable db = true ->
+  slice cmp cutoff last lim db = Ok (db', last', lr) -> parseable db' = true.
+Proof.
+  intros Sd P Sl. destruct (slice_only _ _ _ _ _ _ _ Sd Sl) as [Sd' L].
+  unfold parseable. apply forallb_forall. intros [k v] I. cbn [snd].
+  pose proof (in_lookup _ _ _ Sd' I) as Lk. destruct (L k) as [E|[E _]]; [|congruence].
+  rewrite Lk in E. symmetry in E. apply lookup_in in E. eapply parseable_in; eassumption.
+Qed.
+
+(* with a quiescent application and parseable values the loop for one DBI ends normally within
+   (records in front of the cursor) + 1 slices, whatever the slice limits *)
+Theorem dbi_pass_terminates cutoff d : forall sc last lr e db,
+  env_wf e -> env_get d e = Some db -> parseable db = true -> quiescent sc = true ->
+  (length (resume cmp last db) < length sc)%nat ->
+  exists e' rest tr, dbi_pass cmp cutoff d sc last lr e = (Done e' rest, tr).
+Proof.
+  induction sc as [|[lim ops] sc IH]; intros last lr e db W G P Q Len; [cbn [length] in Len; lia|].
+  unfold quiescent in Q. cbn [forallb fst snd] in Q. apply andb_true_iff in Q. destruct Q as [Q0 Q].
+  apply andb_true_iff in Q0. destruct Q0 as [Hlim Hops]. destruct ops; [|discriminate].
+  pose proof (env_wf_get _ _ _ W G) as Sd.
+  destruct (slice_ok cutoff last lim db P) as [[[db1 last1] lr1] Sl].
+  cbn [dbi_pass]. unfold eslice. rewrite G, Sl. unfold apply_ops. cbn [fold_left].
+  destruct lr1.
+  - pose proof (slice_progress _ _ _ _ _ _ Sd Sl) as Pr.
+    destruct (slice_only _ _ _ _ _ _ _ Sd Sl) as [Sd1 _].
+    destruct (IH last1 true (env_set d db1 e) db1) as (e' & rest & tr & E).
+    + apply env_wf_set; assumption.
+    + eapply env_get_set_same, G.
+    + eapply slice_parseable; eassumption.
+    + exact Q.
+    + cbn [length] in Len. lia.
+    + fold (apply_ops cmp [] (env_set d db1 e)). unfold apply_ops. cbn [fold_left]. rewrite E. eauto.
+  - eauto.
+Qed.
+
+(* ==== recorded observation: the stale limitReached ==== *)
+
+(* once a slice has hit its limit, a transaction that keeps failing (e.g. a value that does not
+   parse further on) is retried forever: the loop never returns while the application is quiet *)
+Theorem stale_limit_livelock cutoff d last e x :
+  (forall lim, eslice cmp cutoff d last lim e = Err x) ->
+  forall sc, quiet sc = true -> dbi_pass cmp cutoff d sc last true e = (Fuel e, []).
+Proof.
+  intros HE. induction sc as [|[lim ops] sc IH]; intros Q; [reflexivity|].
+  unfold quiet in Q. cbn [forallb snd] in Q. apply andb_true_iff in Q. destruct Q as [Q0 Q].
+  destruct ops; [|discriminate]. cbn [dbi_pass]. rewrite HE. unfold apply_ops. cbn [fold_left]. apply IH, Q.
+Qed.
+
 End Order.
